@@ -186,8 +186,15 @@ impl Chan {
             let mut b = Runner::<T>::fresh(&cfg, Sig::noise(s1)).unwrap();
             let any_active = mask.iter().any(|x| *x);
             for (i, (oa, ob)) in ops_a.iter().zip(ops.iter()).enumerate() {
-                let sa = a.step(oa);
                 let sb = b.step(ob);
+                let sa = match guarded(|| a.step(oa)) {
+                    Ok(x) => x,
+                    Err(p) => {
+                        // the same call without the mask just succeeded on the twin
+                        cr.viols.push(Viol { prop: "C11".into(), clause: "masked_call_panics".into(), detail: format!("op {} ({}) panicked with the mask, the unmasked twin completed: {}", i, oa.json().dump(), p), step: i });
+                        break;
+                    }
+                };
                 st.add("compared_steps", 1.0);
                 let mut d = None;
                 if sa.res != sb.res && (any_active || sa.res.is_err() != sb.res.is_err() || sa.res.as_ref().map(|x| x.0).ok() != sb.res.as_ref().map(|x| x.0).ok()) {
